@@ -7,7 +7,12 @@ unseen vocabulary ignored (transform(X2) == transform(X2 with unseen tokens dele
 For the co-occurrence family and NgramVectorizer (Properties/C01_cooc.v, C01_ngram_mask.v) a second stream walks the
 enumerated mask x pruning grid of the zoo for every driver (harness/impl/c01_cooc.py): fitted shape from the fitted
 dictionaries, unseen tokens deleted / replaced by the mask string give the same matrix, a corpus of unseen tokens only
-gives the zero matrix."""
+gives the zero matrix.
+For the numeric estimators (Properties/C01_numeric_rows.v) a third stream (harness/impl/c01_numeric.py) fits each of
+WassersteinVectorizer (LOT_exact with spmatrix / lil / generator input, LOT_sinkhorn, HeuristicLinearAlgebra),
+SinkhornVectorizer and ApproximateWassersteinVectorizer once and transforms X' of 1..11 items under a sweep of block
+sizes (memory_size) and chunk sizes on both sides of every divisibility case: no exception, exactly len(X') rows of the
+fitted width, every row closest to its own un-blocked row (input order), LOT_exact rows equal to them at 1e-9."""
 import glob
 import os
 from . import common as C
@@ -185,6 +190,64 @@ def judge_cooc(ctx, groups, results):
             ctx.count_case(["cooc", name, seed], nontrivial=bool(nontrivial and r.get("n_unseen_tokens")), kind=kind)
 
 
+NUMERIC = [["W_exact_spmatrix", "W_sinkhorn_spmatrix", "Sinkhorn", "W_heuristic", "Approx"], ["W_exact_lil", "W_exact_generator"]]
+NUMERIC_TOL = {"exact_rel": 1e-9, "exact_abs": 1e-12}
+
+
+def numeric_cases(ctx):
+    out = []
+    for grp in NUMERIC:
+        g = []
+        for seed in [ctx.rng.randrange(10 ** 6) for _ in range(1 if ctx.quick else 4)]:
+            for e in grp:
+                sweep = [[n2, b, ch] for n2 in (1, 2, 3, 4, 5, 7, 8, 9, 11) for b in (1, 2, 3, 4, 100)
+                         for ch in ((1, 2, 3, 32) if "inkhorn" in e else (None,))]
+                g.append({"est": e, "seed": seed, "n_components": ctx.rng.choice([2, 4, 5]), "sweep": sweep})
+        out.append(g)
+    return out
+
+
+def run_numeric(ctx, groups):
+    from concurrent.futures import ThreadPoolExecutor
+    with ThreadPoolExecutor(max_workers=len(groups)) as ex:
+        futs = [ex.submit(C.run_impl, "c01_numeric", g, None, 1500) for g in groups]
+        return [f.result() for f in futs]
+
+
+def judge_numeric(ctx, groups, results):
+    n_calls = 0
+    for g, (res, info) in zip(groups, results):
+        res = res or []
+        if len(res) != len(g):
+            ctx.report("implementation child died (rc=%s) on case %s: %s" % (info["rc"], g[len(res)]["est"], info["tail"][-500:]),
+                       {"stage": "impl-crash", "case": g[len(res)]}, found_input=True)
+        for c, r in zip(g, res):
+            ctx.count_case(["numeric", c["est"], c["seed"], c["n_components"]], nontrivial="ok" in r, kind="numeric-rows:" + c["est"])
+            if "ok" not in r:
+                ctx.report("%s: fit raised %s: %s" % (c["est"], r.get("err"), r.get("msg")),
+                           {"stage": "oracle-numeric", "case": c, "result": r}, found_input=True)
+                continue
+            w = r["ok"]["width"]
+            exact = "inkhorn" not in c["est"]
+            for call in r["ok"]["calls"]:
+                n_calls += 1
+                what = "%s.transform(%d items, block_size=%s, chunk_size=%s)" % (c["est"], call["n2"], call["block"], call["chunk"])
+                rep = {"stage": "oracle-numeric", "case": dict(c, sweep=[[call["n2"], call["block"], call["chunk"]]]), "call": call}
+                if "err" in call:
+                    ctx.report("%s raised %s: %s" % (what, call["err"], call["msg"]), rep, found_input=True)
+                elif call["shape"] != [call["n2"], w]:
+                    ctx.report("%s returned shape %s, expected (%d items, fitted width %d)" % (what, call["shape"], call["n2"], w), rep, found_input=True)
+                elif call.get("own_row_closest") is False:
+                    ctx.report("%s: rows are not in input order (a row is closer to another item's un-blocked row)" % what, rep, found_input=True)
+                elif exact and call.get("max_abs_diff", 0.0) > NUMERIC_TOL["exact_abs"] + NUMERIC_TOL["exact_rel"] * call.get("scale", 0.0):
+                    ctx.report("%s: rows differ from the un-blocked transform of the same items by %.3g" % (what, call["max_abs_diff"]), rep, found_input=True)
+                else:
+                    continue
+                break
+    ctx.coverage["oracle"]["numeric_rows_calls"] = n_calls
+    ctx.coverage["oracle"]["numeric_rows_tolerance"] = NUMERIC_TOL
+
+
 def run(ctx, replay=None):
     extra = sorted(os.path.basename(p)[:-2] for p in glob.glob(os.path.join(C.COQ, "theories", "Properties", "C01_*.v")))
     C.run_gate(ctx, extra_props=extra)
@@ -194,12 +257,21 @@ def run(ctx, replay=None):
         judge_cooc(ctx, *run_cooc(ctx, cooc_replay))
         C.gate_violation(ctx)
         return ctx.finish("proof")
+    if replay and replay.get("stage") == "oracle-numeric":
+        ctx.coverage.setdefault("oracle", {})
+        groups = [[replay["case"]]]
+        judge_numeric(ctx, groups, run_numeric(ctx, groups))
+        C.gate_violation(ctx)
+        return ctx.finish("proof")
     groups = [[tuple(replay["case"])]] if replay else Z.make_groups(ctx, per, only=ROW_PRODUCING, light_factor=2)
     from concurrent.futures import ThreadPoolExecutor
-    with ThreadPoolExecutor(max_workers=2) as ex:
+    num_groups = None if replay else numeric_cases(ctx)
+    with ThreadPoolExecutor(max_workers=3) as ex:
         f_cooc = None if replay else ex.submit(run_cooc, ctx)
+        f_num = None if replay else ex.submit(run_numeric, ctx, num_groups)
         results = Z.run_groups(groups)
         cooc = f_cooc.result() if f_cooc else None
+        num = f_num.result() if f_num else None
     ctx.coverage["rule"] = ("zoo case = (estimator, seed): random parameters, training input X and a second input X' with unseen "
                             "vocabulary / empty items / out-of-range values; non-trivial = transform(X') returned >= 1 row")
     for g, (res, info) in zip(groups, results):
@@ -212,6 +284,8 @@ def run(ctx, replay=None):
             check_record(ctx, name, seed, r)
     if cooc:
         judge_cooc(ctx, *cooc)
+    if num:
+        judge_numeric(ctx, num_groups, num)
     # per-vectorizer model-level checks contributed with their kernels
     try:
         from . import c06
